@@ -373,6 +373,63 @@ def judge_sched(s, o):
     return None
 
 
+# the SAME object is compared several times (two snapshots, or one snapshot per operation) and changes in between in a way its == does not see but its
+# code shows: key order of a dict, 1 -> True, 0.0 -> -0.0, a dataclass field with compare=False.  Every snapshot records the state at ITS comparison.
+INVISIBLE_HDR = ("from inline_snapshot import snapshot\nfrom dataclasses import dataclass, field\n\n\n@dataclass\nclass Job:\n    id: int\n    state: str = field(default='queued', compare=False)\n"
+                 "    log: list = field(default_factory=list, compare=False)\n\n\nLOG = []\n\n\n")
+INVISIBLE = [
+    ("{'a': 1, 'b': 2}", "v['a'] = v.pop('a')"), ("{'a': 1, 'b': [1, 0]}", "v['a'] = True"), ("[[1, 0], 2]", "v[0][0] = True"), ("[0.0, 1]", "v[0] = -0.0"),
+    ("Job(id=7)", "v.state = 'done'; v.log.append('finished')"), ("[Job(id=1), Job(id=2)]", "v[1].state = 'failed'"), ("{'k': {'x': 1, 'y': 2}}", "v['k']['x'] = v['k'].pop('x')"),
+    ("[1, 2.0]", "v[:] = [1.0, 2]"),
+]
+
+
+def run_invisible(item):
+    init, mut, form = item
+    if form == "two":
+        body = f"    v = {init}\n    LOG.append(repr(v))\n    assert v == snapshot()\n    {mut}\n    LOG.append(repr(v))\n    assert v == snapshot()\n"
+    elif form == "ops":
+        body = f"    v = {init}\n    LOG.append(repr(v))\n    assert v in snapshot()\n    {mut}\n    LOG.append(repr(v))\n    assert v == snapshot()\n"
+    else:
+        body = f"    v = {init}\n    s = snapshot()\n    LOG.append(repr(v))\n    assert v == s['first']\n    {mut}\n    LOG.append(repr(v))\n    assert v == s['second']\n"
+    src = INVISIBLE_HDR + "def test_a():\n" + body
+    r = driver.run_inproc({"test_a.py": src}, ("create",), block_black=True)
+    after = r["files"]["test_a.py"].decode()
+    out = {"session_exc": r["session_exc"], "tests": [(t[1], t[2][:200]) for t in r["tests"]], "source": src, "after": after}
+    try:
+        tree = ast.parse(after)
+        calls = sorted((n for n in ast.walk(tree) if isinstance(n, ast.Call) and isinstance(n.func, ast.Name) and n.func.id == "snapshot"), key=lambda n: n.lineno)
+        args = [c.args[0] if c.args else None for c in calls]
+        if form == "ops":
+            args[0] = args[0].elts[0]
+        if form == "keys":
+            d = args[0]
+            args = [d.values[[k.value for k in d.keys].index(name)] for name in ("first", "second")]
+        ns = {}
+        exec(compile(src.replace("from inline_snapshot import snapshot\n", "class _Any:\n    def __eq__(s, o): return True\n    def __contains__(s, o): return True\n    def __getitem__(s, k): return s\n"
+                                 "def snapshot():\n    return _Any()\n"), "<plain>", "exec"), ns)
+        ns["test_a"]()
+        # the written code is evaluated (fields that hold their default are not written) and compared through repr, which shows what == does not see
+        out["want"] = out["want_txt"] = list(ns["LOG"])
+        out["got_txt"] = [ast.get_source_segment(after, a) if a is not None else None for a in args]
+        out["got"] = [repr(eval(t, dict(ns))) if t is not None else None for t in out["got_txt"]]
+    except Exception as e:  # noqa
+        out["error"] = f"{type(e).__name__}: {e}"
+    return out
+
+
+def invisible(ctx: Ctx):
+    items = [(init, mut, form) for init, mut in INVISIBLE for form in ("two", "ops", "keys")]
+    for it, o in zip(items, pmap(run_invisible, items, chunksize=2)):
+        ctx.count(("invisible", it), True)
+        if o["session_exc"] or "error" in o or any(t[1] != "ok" for t in o["tests"]):
+            ctx.report(f"C17 oracle: run failed for one object compared twice ({it}): {o.get('session_exc') or o.get('error') or o['tests']}", {"kind": "invisible", "item": list(it)})
+        elif o["got"] != o["want"]:
+            ctx.report(f"C17 oracle: one object, compared twice and changed in between ({it[1]}): the snapshots hold {o['got_txt']} but the values at the comparisons read {o['want_txt']}",
+                       {"kind": "invisible", "item": list(it), "after": o["after"]})
+    ctx.coverage["oracle"]["same_object_compared_twice"] = len(items)
+
+
 BADCOPY = '''from inline_snapshot import snapshot
 R = []
 
@@ -549,6 +606,7 @@ def run(ctx: Ctx):
         if why:
             ctx.report("C17 oracle: " + why, {"kind": "sched", "source": s["source"], "op": s["op"], "after": o.get("after")})
     ctx.coverage["oracle"]["mutation_schedules"] = m
+    invisible(ctx)
     ctx.sample({"schedule": scheds[0]["source"].split("def test_a")[1], "recorded": outs[0].get("arg"), "logged": outs[0].get("log")})
     bad_copy(ctx)
     uncopyable(ctx)
@@ -556,6 +614,10 @@ def run(ctx: Ctx):
 
 def replay(ctx: Ctx, data):
     c = data["case"]
+    if c.get("kind") == "invisible":
+        o = run_invisible(tuple(c["item"]))
+        print(o)
+        return not o["session_exc"] and "error" not in o and o.get("got") == o.get("want")
     if c.get("kind") == "sched":
         s = {"source": c["source"], "op": c["op"]}
         o = run_sched(s)
